@@ -308,6 +308,9 @@ func Run(input string, trace bool, r *rt.Run, init bool) (res rt.Result) {
 	if v == nil {
 		return rt.Finish(r, nil, true, 0, "")
 	}
+	if rt.Hold != nil {
+		rt.Hold(func() (int, string) { return v.n, v.s })
+	}
 	return rt.Finish(r, nil, false, v.n, v.s)
 }
 func init() {
@@ -336,6 +339,9 @@ func RunCtx(ctx interface{}, input string, trace bool, r *rt.Run, reinit bool) (
 	v := c.Parser(input)
 	if v == nil {
 		return rt.Finish(r, nil, true, 0, "")
+	}
+	if rt.Hold != nil {
+		rt.Hold(func() (int, string) { return v.n, v.s })
 	}
 	return rt.Finish(r, nil, false, v.n, v.s)
 }
